@@ -37,12 +37,19 @@ LengthUnits == {"px", "cm", "mm", "q", "in", "pt", "pc", "em", "ex", "ch", "rem"
                 "cap", "ic", "lh", "rlh", "vi", "vb", "svw", "svh", "lvw", "lvh", "dvw", "dvh"}
 
 (* canonical number: <<>> for zero, else <<neg, exp10>> \o mantissa digits (no leading or
-   trailing zeros); exponents that do not fit an Int keep the lexeme as written *)
+   trailing zeros).  When the decimal exponent does not fit an Int it is carried as a signed
+   digit sequence: <<2, neg>> \o mantissa \o <<10, expneg>> \o exponent digits (10 separates,
+   digits are 0..9), so that 00.250E+1234567890123456789 = 25e1234567890123456787. *)
+RECURSIVE NatOfInt(_)
+NatOfInt(n) == IF n < 10 THEN <<n>> ELSE NatOfInt(n \div 10) \o <<n % 10>>
+SIntOfInt(k) == SInt(k < 0, NatOfInt(IF k < 0 THEN 0 - k ELSE k))
 NumCanon(lex) ==
   IF ~IsNumber(lex) THEN <<3>> \o lex
   ELSE LET c == Canon(lex)  se == Small(c.exp) IN
        IF c.zero THEN <<>>
-       ELSE IF IsFar(se) THEN <<2>> \o lex
+       ELSE IF IsFar(se)
+       THEN LET E == SSub(c.exp, SIntOfInt(0 - c.k)) IN
+            <<2, IF c.neg THEN 1 ELSE 0>> \o c.mant \o <<10, IF E.neg THEN 1 ELSE 0>> \o E.mag
        ELSE <<IF c.neg THEN 1 ELSE 0, se + c.k>> \o c.mant
 
 IsWs(t) == t.k = "ws"
